@@ -796,7 +796,7 @@ def reuse_stats(hists, results) -> Dict[str, int]:
 
 def replay_findings(rep: Report, prop: str, model_ok: bool, accept_all: Dict[str, str]):
     """Step 5: replay the witnesses of the listed findings of `prop` (one worker, one Coq evaluation)."""
-    fs = core.load_findings(prop)
+    fs = [f for f in core.load_findings(prop) if "case" in json.loads((core.VERIF / f.witness).read_text())]
     if not fs:
         return
     ws = [json.loads((core.VERIF / f.witness).read_text()) for f in fs]
@@ -846,9 +846,9 @@ ASSUME = [
     "CPython: an object without remaining strong references is reclaimed by gc.collect() and its weak references are cleared; "
     "id() of simultaneously existing objects differ",
     "rustworkx: add_node returns an index not currently in use; remove_node drops the incident edges",
-    "a query result is consumed completely (list(q.evaluate())) before the next operation",
-    "no SymbolGraph().clear() between let(T, None) and the first evaluation of that variable (the pending generator stays "
-    "bound to the dropped graph; such histories are not generated and are inadmissible in the model)",
+    "an evaluation consumed row by row (Start / Next / Close) that was begun before a SymbolGraph().clear() is not continued "
+    "after it (its generator stays bound to the dropped graph; such histories are not generated and are inadmissible in the model); "
+    "an iterator the program drops is finalised at once (CPython reference counting), i.e. Close",
 ]
 
 
@@ -900,10 +900,11 @@ def run(tier: str, seed: int, replay=None) -> int:
     rep = Report(PROP, tier, seed, "proof")
     rep.trusted = core.COQ_TRUSTED + TRUSTED
     rep.assume = ASSUME
-    rep.rule = ("corpus + all valid histories of length 4 (quick) / 5 (thorough) over {New A, New D, Drop, Sweep, QueryG A/C, Relate, Declare A (once, early), Eval} "
+    rep.rule = ("corpus + all valid histories of length 4 (quick) / 5 (thorough) over {New A, New D, Drop, Sweep, QueryG A/C, Relate, Declare A (once, early), Eval, Start (once), Next} "
                 "+ seeded random histories (4..16 ops quick, 4..28 thorough) over 8 classes (tree + diamond + value-equal class) "
                 "in profiles F / churn (no Clear, no EQL query), Fq / decl (variables declared by let(T, None), the world changed by New / Drop / "
-                "Sweep / Relate, evaluated later; fused QueryE) and all (Clear, QueryE, Declare, Eval incl. re-evaluation); non-trivial = >= 4 ops of >= 3 kinds; "
+                "Sweep / Relate, evaluated later and again; fused QueryE), live / livenodrop (evaluations consumed row by row -- Start, Next, "
+                "Close -- interleaved with everything else) and all (all of it plus Clear); non-trivial = >= 4 ops of >= 3 kinds; "
                 "distinct = distinct history")
     ok_spec, log = core.coq_make(["Base/Sx.vo", "Onto/RegistrySpec.vo", "Onto/RegistrySpecRun.vo"])
     rep.oblige("build:spec", ok_spec, "" if ok_spec else core.first_error(log))
